@@ -241,6 +241,14 @@ class U:
         a = np.zeros((k, k))
         self._d[k] = (1.0, a)
         return self._d[k]
+    def lazy(self, mol, c):
+        if self._eri is None:
+            self._eri = mol.intor("int2e")
+        return transform(self._eri, c)
+    def lazy_ok(self):
+        if self._ref is None:
+            self._ref = self.prepare()
+        return self._ref
 '''
 
 
@@ -302,6 +310,37 @@ def cache_key_findings(tree: ast.AST):
                             out.append((fn, prefix + fn.name, f"results are remembered in {cont} and handed out as they are: the remembered value is {mut[0]}, so a caller that "
                                                               f"modifies what it received (an in-place scaling, an append) changes what every later caller gets"))
                             break
+            # lazily filled attribute: `if self.A is None: self.A = <expression of the method's arguments>` - a cache with no key at all
+            if fn.name != "__init__":
+                for n in ast.walk(fn):
+                    if not isinstance(n, ast.If):
+                        continue
+                    t = n.test
+                    attr = None
+                    if isinstance(t, ast.Compare) and len(t.ops) == 1 and isinstance(t.ops[0], ast.Is) and isinstance(t.comparators[0], ast.Constant) and t.comparators[0].value is None:
+                        attr = norm(t.left)
+                        if isinstance(t.left, ast.Call) and norm(t.left.func) == "getattr" and len(t.left.args) >= 2 and isinstance(t.left.args[1], ast.Constant):
+                            attr = f"{norm(t.left.args[0])}.{t.left.args[1].value}"          # getattr(self, "x", None) is None
+                    elif isinstance(t, ast.UnaryOp) and isinstance(t.op, ast.Not) and isinstance(t.operand, ast.Call) and norm(t.operand.func) == "hasattr" and \
+                            len(t.operand.args) == 2 and isinstance(t.operand.args[1], ast.Constant):
+                        attr = f"{norm(t.operand.args[0])}.{t.operand.args[1].value}"
+                    if not attr or not attr.startswith("self."):
+                        continue
+                    for st in n.body:
+                        if isinstance(st, ast.Assign) and len(st.targets) == 1 and norm(st.targets[0]) == attr:
+                            dep = sorted(names_of(st.value))
+                            # ... and the remembered value is then combined with this call's own arguments (a one-time initialiser that only keeps what
+                            # it built - `if self.mol is None: self.mol = make(solver)` - is not a result cache)
+                            end = max(getattr(x, "end_lineno", n.lineno) for x in ast.walk(n) if hasattr(x, "lineno"))
+                            used_after = False
+                            for x in ast.walk(fn):
+                                if isinstance(x, (ast.Assign, ast.AugAssign, ast.Return, ast.Expr)) and x.lineno > end and getattr(x, "value", None) is not None:
+                                    reads = any(isinstance(y, ast.Attribute) and norm(y) == attr and isinstance(y.ctx, ast.Load) for y in ast.walk(x.value))
+                                    if reads and names_of(x.value):
+                                        used_after = True
+                            if dep and used_after:
+                                out.append((fn, prefix + fn.name, f"{attr} is computed from the argument(s) {dep} on the first call only and reused afterwards: a later call with "
+                                                                  f"another {dep[0]} receives the value computed for the first one"))
             visit(fn.body, prefix + fn.name + ".")
     visit(tree.body, "")
     return out
@@ -309,7 +348,7 @@ def cache_key_findings(tree: ast.AST):
 
 def check_cache_keys(idx: Index, rep, relpaths: Iterable[str], rule: str = "K1.cache-key"):
     ex = cache_key_findings(ast.parse(_CACHE_EXAMPLE))
-    if [q for _, q, _ in ex] != ["U.build", "U.shares"]:
+    if [q for _, q, _ in ex] != ["U.build", "U.shares", "U.lazy"]:
         raise AnalysisError(f"cache-key rule self-check failed: built-in example reports {[q for _, q, _ in ex]}")
     for rel in relpaths:
         try:
